@@ -418,67 +418,130 @@ def rule_l6(ctx):
     return res
 
 
+def _l7_classify(body, op, ty_arg, bits_arg, size_args):
+    from_bits = from_type = False
+    for (r, p) in body.trace_operand(op):
+        if r[0] == "agg":
+            rv = body.blocks[r[1]]["stmts"][r[2]]["rv"]
+            if "Range" in (rv.get("adt") or "") and len(rv["ops"]) == 2:
+                end = body.deep_sources(rv["ops"][1], 5)
+                if any(rr == ("arg", ty_arg) or rr in [("arg", a) for a in size_args] or (rr[0] == "call" and mir.last_seg(rr[2] or "") in ("get", "resolve_const_expr_usize", "resolve_const_expr_unsigned")) for (rr, pp) in end):
+                    from_type = True
+                if any(rr == ("arg", bits_arg) for (rr, pp) in end):
+                    from_bits = True
+        elif r == ("arg", bits_arg):
+            from_bits = True
+        elif r[0] in ("call", "iter"):
+            c = body.term(r[1])
+            if c["args"] and any(rr == ("arg", bits_arg) for (rr, pp) in body.deep_sources(c["args"][0], 4)):
+                from_bits = True
+    return from_bits, from_type
+
+
+def _l7_loops(ctx, res, body, region, label, ty_arg, bits_arg, size_args):
+    """element loops (loops around a recursive decode) inside `region` of `body`; returns how many were examined"""
+    n = 0
+    # elements decoded by a closure handed to an iterator adaptor (`.map(|bits| from_unwrapped_bits(..))`)
+    for c in sorted(ctx.cg.closures_of.get(body.id, ())):
+        if not any(mir.callee(t) == FROM_BITS for _, t in ctx.body(c).calls()):
+            continue
+        for b in region:
+            t = body.term(b)
+            if t["k"] == "call" and len(t["args"]) >= 2 and any(r[0] == "agg" and body.blocks[r[1]]["stmts"][r[2]]["rv"].get("closure") == c
+                                                                for a in t["args"][1:] for (r, p) in body.trace_operand(a, through={})):
+                n += 1
+                from_bits, from_type = _l7_classify(body, t["args"][0], ty_arg, bits_arg, size_args)
+                if from_type and not from_bits:
+                    res.ok({"arm": label, "verdict": "elements decoded by a closure over a Range bounded by the array type's size"})
+                else:
+                    res.bad(Finding("L7", body.id, "%s elements decoded from an iterator over the bits" % label,
+                                    "the elements are produced by mapping over the bit slice (chunks / windows) instead of a Range bounded by the array type: arrays of zero-sized elements decode to the wrong length or panic",
+                                    t["sp"]))
+    rec = [b for b in region if body.term(b)["k"] == "call" and mir.callee(body.term(b)) == FROM_BITS]
+    for rb in rec:
+        loops = [lp for lp in body.loops() if rb in lp["body"]]
+        if not loops:
+            res.bad(Finding("L7", body.id, "%s elements decoded outside a loop" % label, "cannot see how many elements are decoded", body.term(rb)["sp"]))
+            continue
+        lp = min(loops, key=lambda l_: len(l_["body"]))
+        for b in lp["body"]:
+            t = body.term(b)
+            if t and t["k"] == "call" and t["func"].get("declared") == "std::iter::Iterator::next":
+                inner = [l2 for l2 in body.loops() if b in l2["body"]]
+                if min(inner, key=lambda l2: len(l2["body"]))["header"] != lp["header"]:
+                    continue
+                n += 1
+                from_bits = from_type = False
+                for (r, p) in body.trace_operand(t["args"][0]):
+                    if r[0] == "agg":
+                        rv = body.blocks[r[1]]["stmts"][r[2]]["rv"]
+                        if "Range" in (rv.get("adt") or "") and len(rv["ops"]) == 2:
+                            end = body.deep_sources(rv["ops"][1], 5)
+                            if any(rr == ("arg", ty_arg) or rr in [("arg", a) for a in size_args] or (rr[0] == "call" and mir.last_seg(rr[2] or "") in ("get", "resolve_const_expr_usize", "resolve_const_expr_unsigned")) for (rr, pp) in end):
+                                from_type = True
+                            if any(rr == ("arg", bits_arg) for (rr, pp) in end):
+                                from_bits = True
+                    elif r == ("arg", bits_arg):
+                        from_bits = True
+                    elif r[0] in ("call", "iter"):
+                        c = body.term(r[1])
+                        if c["args"] and any(rr == ("arg", bits_arg) for (rr, pp) in body.deep_sources(c["args"][0], 4)):
+                            from_bits = True
+                if from_bits and not from_type:
+                    res.bad(Finding("L7", body.id, "%s element count taken from the bits" % label,
+                                    "the element loop walks the bit slice (chunks / windows / its length) instead of a Range bounded by the array type: arrays of zero-sized elements decode to the wrong length or panic",
+                                    t["sp"]))
+                elif from_type:
+                    res.ok({"arm": label, "verdict": "element loop bounded by the array type's size"})
+                else:
+                    res.bad(Finding("L7", body.id, "%s element count of unknown origin" % label, "the element loop is bounded by neither the type nor a constant of the program", t["sp"]))
+    return n
+
+
 def rule_l7(ctx):
     res = RuleResult("L7", "the reader takes the number of array elements from the type, not from the bits")
     body = ctx.body(FROM_BITS)
-    # the type parameter: the first &Type argument
-    ty_arg = None
+    ty_arg = bits_arg = None
     for l in range(1, body.arg_count + 1):
         if body.locals[l]["ty"] == "&ast::Type":
             ty_arg = l
-    bits_arg = None
-    for l in range(1, body.arg_count + 1):
         if body.locals[l]["ty"] == "&[bool]":
             bits_arg = l
     if ty_arg is None or bits_arg is None:
         raise AnchorMissing("L7: from_unwrapped_bits has no (&Type, &[bool]) parameters")
     n = 0
+    reach = ctx.cg.reach_set({FROM_BITS})
+    helpers = set()
     for variant in ("Array", "ArrayConst", "ArrayConstExpr"):
         succ = body.pruned_succ({(("arg", ty_arg), ()): variant})
         region = body.reachable([0], succ=succ)
         if len(region) == len(body.reachable([0])):
             raise AnchorMissing("L7: cannot isolate the %s arm of from_unwrapped_bits" % variant)
-        rec = [b for b in region if body.term(b)["k"] == "call" and mir.callee(body.term(b)) == FROM_BITS]
-        for rb in rec:
-            loops = [lp for lp in body.loops() if rb in lp["body"]]
-            if not loops:
-                res.bad(Finding("L7", FROM_BITS, "%s elements decoded outside a loop" % variant, "cannot see how many elements are decoded", body.term(rb)["sp"]))
-                continue
-            lp = min(loops, key=lambda l_: len(l_["body"]))
-            for b in lp["body"]:
-                t = body.term(b)
-                if t and t["k"] == "call" and t["func"].get("declared") == "std::iter::Iterator::next":
-                    inner = [l2 for l2 in body.loops() if b in l2["body"]]
-                    if min(inner, key=lambda l2: len(l2["body"]))["header"] != lp["header"]:
-                        continue
-                    n += 1
-                    # what is iterated: a Range (its end decides the count) or something derived from the bit slice
-                    from_bits = from_type = False
-                    for (r, p) in body.trace_operand(t["args"][0]):
-                        if r[0] == "agg":
-                            rv = body.blocks[r[1]]["stmts"][r[2]]["rv"]
-                            if "Range" in (rv.get("adt") or "") and len(rv["ops"]) == 2:
-                                end = body.deep_sources(rv["ops"][1], 5)
-                                if any(rr == ("arg", ty_arg) or (rr[0] == "call" and mir.last_seg(rr[2] or "") in ("get", "resolve_const_expr_usize", "resolve_const_expr_unsigned")) for (rr, pp) in end):
-                                    from_type = True
-                                if any(rr == ("arg", bits_arg) for (rr, pp) in end):
-                                    from_bits = True
-                        elif r == ("arg", bits_arg):
-                            from_bits = True
-                        elif r[0] == "call":
-                            c = body.term(r[1])
-                            if c["args"] and any(rr == ("arg", bits_arg) for (rr, pp) in body.deep_sources(c["args"][0], 3)):
-                                from_bits = True
-                    if from_bits and not from_type:
-                        res.bad(Finding("L7", FROM_BITS, "%s element count taken from the bits" % variant,
-                                        "the number of decoded elements follows the length of the bit slice, not the array type: arrays of zero-sized elements decode to the wrong length",
-                                        t["sp"]))
-                    elif from_type:
-                        res.ok({"arm": variant, "verdict": "element loop bounded by the array type's size"})
-                    else:
-                        res.bad(Finding("L7", FROM_BITS, "%s element count of unknown origin" % variant, "the element loop is bounded by neither the type nor a constant of the program", t["sp"]))
+        n += _l7_loops(ctx, res, body, region, variant, ty_arg, bits_arg, [])
+        # the arm may hand the elements to a helper of literal.rs that decodes them (and calls back)
+        for b in region:
+            t = body.term(b)
+            if t["k"] == "call":
+                for c in mir.callee_names(t):
+                    if c != FROM_BITS and c in reach and c in ctx.fns and "mir" in ctx.fns[c] and ctx.fns[c]["sp"][0].endswith("literal.rs"):
+                        helpers.add(c)
+    for h in sorted(helpers):
+        hb = ctx.body(h)
+        hty = hbits = None
+        sizes = []
+        for l in range(1, hb.arg_count + 1):
+            ty = hb.locals[l]["ty"]
+            if ty == "&ast::Type":
+                hty = l
+            elif ty == "&[bool]":
+                hbits = l
+            elif ty == "usize":
+                sizes.append(l)
+        if hbits is None:
+            continue
+        n += _l7_loops(ctx, res, hb, hb.reachable([0]), "helper %s" % mir.last_seg(h), hty if hty is not None else -1, hbits, sizes)
     if (n < 3) and not res.findings:
-        raise AnchorMissing("L7: expected element loops in the three array arms, found %d" % n)
+        raise AnchorMissing("L7: expected element loops in the three array arms (or in a helper they call), found %d" % n)
     return res
 
 
